@@ -65,7 +65,42 @@ func (*Ar).Next
   ensures result1 == io.EOF ==> old(d.offset) + 1 >= len(fileOf(d.in))
   modifies d.offset
 
+// which member the loader (and the signature check) uses: the ONLY member with the given name prefix; two candidates
+// are an error, so the choice never depends on the iteration order of the map (C15 determinism, C16)
+func findDeb2Member
+  ensures result1 != nil ==> result0 == nil
+  ensures result1 == nil ==> result0 != nil && hasPrefix(result0.Name, prefix)
+  ensures result1 == nil ==> (forall k string :: has(archive, k) && archive[k] != nil && hasPrefix(archive[k].Name, prefix) ==> archive[k] == result0)
+  loop 1:
+    invariant found == nil ==> (forall k string :: visited(k) && has(archive, k) && archive[k] != nil ==> !hasPrefix(archive[k].Name, prefix))
+    invariant found != nil ==> hasPrefix(found.Name, prefix)
+    invariant found != nil ==> (forall k string :: visited(k) && has(archive, k) && archive[k] != nil && hasPrefix(archive[k].Name, prefix) ==> archive[k] == found)
+
+// decompressors, archive/tar and the reflective control decoder are outside the verifier: assumed, not verified
+trusted func loadDeb2Control
+  modifies *deb
+trusted func loadDeb2Data
+  modifies *deb
+
+func loadDeb2
+  ensures result1 != nil ==> result0 == nil
+  ensures result1 == nil ==> result0 != nil
+
+// the .deb loader's member loop: one ar step per iteration, at least 60 bytes of progress each, so it stops after at
+// most len/60 steps on any input; duplicate member names are rejected; a value xor an error
+func loadDeb
+  requires archive != nil && archive.in != nil && 0 <= archive.offset && archive.offset <= len(fileOf(archive.in)) + 1
+  ensures result1 != nil ==> result0 == nil
+  // success only after the whole archive was iterated to a clean end: an error of the ar reader is never swallowed
+  ensures result1 == nil ==> archive.offset + 1 >= len(fileOf(archive.in))
+  modifies archive.offset
+  loop 1:
+    invariant archive != nil && archive.in == old(archive.in) && archive.in != nil
+    invariant 0 <= archive.offset && archive.offset <= len(fileOf(archive.in)) + 1
+    invariant contents != nil && (forall k string :: has(contents, k) ==> contents[k] != nil)
+    decreases len(fileOf(archive.in)) + 1 - archive.offset
+
 property C13: toDecimal, checkAr, LoadAr, parseArEntry, (*Ar).Next
-property C15: toDecimal, checkAr, LoadAr, parseArEntry, (*Ar).Next
+property C15: toDecimal, checkAr, LoadAr, parseArEntry, (*Ar).Next, findDeb2Member, loadDeb2, loadDeb
 
 @*/
